@@ -145,7 +145,7 @@ void w_load_vars(const uint8_t *src);
 size_t w_min_cap(void);                                      /* smallest legal command capacity for this table */
 
 /* -------------------------------------------------------------------- io */
-enum { SCH_EAGER = 0, SCH_BERNOULLI = 1, SCH_BITS = 2 };
+enum { SCH_EAGER = 0, SCH_BERNOULLI = 1, SCH_BITS = 2, SCH_PERIODIC = 3 };
 struct sched {
         int mode; unsigned pct; prng_t pr;
         const uint8_t *bits; size_t nbits, pos;      /* SCH_BITS: 1 = ready; eager once exhausted */
@@ -154,6 +154,7 @@ extern struct sched RS, WS;
 void sch_eager(struct sched *s);
 void sch_bern(struct sched *s, unsigned pct, uint64_t seed);
 void sch_bits(struct sched *s, const uint8_t *bits, size_t n);
+void sch_periodic(struct sched *s, unsigned period, unsigned phase);   /* ready when service-call number % period == phase */
 
 #define INCAP (1u << 16)
 #define OUTCAP (1u << 18)
